@@ -21,7 +21,7 @@ type compactionSite struct {
 
 func init() {
 	prop("C18",
-		"(a) every compaction removes exactly the tables it merged; (b) the new tables of a level below 0 are written from a merge that includes ALL tables of that level, so the level stays one sorted run, and the run is the merge of exactly the selected tables; (c) a change set is returned only when neither the scan nor the table writer failed; (d) change sets are applied to the current level list under the database lock and level lists are immutable (C07.d, C08.f); the merge keeps the newest version and tombstones (C07.g, C03.d); (e) a major compaction that stops inside a level selects nothing from newer levels, and selects oldest tables first.",
+		"(a) every compaction removes exactly the tables it merged; (b) the new tables of a level below 0 are written from a merge that includes ALL tables of that level, so the level stays one sorted run, and the run is the merge of exactly the selected tables; (c) a change set is returned only when neither the scan nor the table writer failed; (d) change sets are applied to the current level list under the database lock and level lists are immutable (C07.d, C08.f); the merge keeps the newest version and tombstones (C07.g, C03.d); (e) a major compaction that stops inside a level selects nothing from newer levels, and selects oldest tables first; (f) every compaction step starts from the current level list; (g) the table writer's entry buffer never overwrites in place the chunk views it has handed to Write.",
 		"validity of level layouts over all histories and compactor settings; the size arithmetic of the triggers.")
 
 	register(&Obligation{ID: "C18.a", Props: []string{"C18"}, Template: "value-identity",
